@@ -848,12 +848,61 @@ func ruleR11j(c *Check) {
 				if !ok || named.Obj().Pkg() == nil || !strings.HasSuffix(named.Obj().Pkg().Path(), "/analysis") {
 					continue
 				}
-				n++
 				fieldName := named.Underlying().(*types.Struct).Field(fa.Field).Name()
+				if !comparedField(c, region, engine.FieldKeyOf(fa.X.Type(), fa.Field)) {
+					continue
+				}
+				n++
 				key := "compared-path-clean/" + named.Obj().Name() + "." + fieldName + "#" + strconv.Itoa(n)
 				okClean, what := cleanPathValue(st.Val, 0)
 				c.Require(okClean, "R11j", key, "the recorded path is the result of filepath.Clean/Join", "the conflict detector records "+what+": a path spelled ./x, a//b or dist/ does not compare equal to (or within) x, a/b, dist, so two unordered targets that write the same location are accepted", c.P.InstrPos(st))
 			}
 		}
 	}
+}
+
+// comparedField: some read of the field in the region is used as a map key or handed to a first-party
+// predicate (a bool function) — the field takes part in a comparison of locations.
+func comparedField(c *Check, region map[*ssa.Function]bool, key engine.FieldKey) bool {
+	for _, f := range c.P.Funcs {
+		if !(region[f] || region[engine.TopFunc(f)]) {
+			continue
+		}
+		for _, b := range f.Blocks {
+			for _, in := range b.Instrs {
+				var v ssa.Value
+				switch x := in.(type) {
+				case *ssa.UnOp:
+					if fa, ok := x.X.(*ssa.FieldAddr); ok && x.Op == token.MUL && engine.FieldKeyOf(fa.X.Type(), fa.Field) == key {
+						v = x
+					}
+				case *ssa.Field:
+					if engine.FieldKeyOf(x.X.Type(), x.Field) == key {
+						v = x
+					}
+				}
+				if v == nil || v.Referrers() == nil {
+					continue
+				}
+				for _, r := range *v.Referrers() {
+					switch u := r.(type) {
+					case *ssa.MapUpdate:
+						if u.Key == v {
+							return true
+						}
+					case *ssa.Lookup:
+						if u.Index == v {
+							return true
+						}
+					case ssa.CallInstruction:
+						h := u.Common().StaticCallee()
+						if h != nil && engine.IsFirstParty(pkgPathOf(h)) && h.Signature.Results().Len() == 1 && h.Signature.Results().At(0).Type().String() == "bool" {
+							return true
+						}
+					}
+				}
+			}
+		}
+	}
+	return false
 }
